@@ -243,6 +243,8 @@ type Session struct {
 	Writer  *Writer
 	Server  func(args *plugin.HTTPServerArgs) error
 	RoundTr http.RoundTripper
+	// OSWriter leaves the Writer plug-in unset, so that pprof writes output files itself
+	OSWriter bool
 }
 
 // Result of a run.
@@ -266,6 +268,9 @@ func (s *Session) Run() (res Result) {
 		s.Obj = StubObj{}
 	}
 	o := &plugin.Options{Flagset: s.Flags, Fetch: s.Fetch, Sym: s.Sym, Obj: s.Obj, UI: s.UI, Writer: s.Writer, HTTPServer: s.Server, HTTPTransport: s.RoundTr}
+	if s.OSWriter {
+		o.Writer = nil
+	}
 	defer func() {
 		if r := recover(); r != nil {
 			res.Panic = fmt.Sprintf("%v\n%s", r, debug.Stack())
